@@ -99,6 +99,7 @@ Definition u_contains (a b : uproto) : bool :=
 (* CDSCollection.__lt__ between two protoclusters (no child collections: `other in self` is False) *)
 Definition u_lt (a b : uproto) : bool :=
   if u_contains a b && negb (u_contains b a) then true
+  else if u_contains b a && negb (u_contains a b) then false  (* mirrored shortcut: repair of finding F53 / C10-F46 *)
   else lex2 (ust a, - ulen a) (ust b, - ulen b).
 (* `by_product = sorted(clusters, key=(product, core_start, core_end)); return sorted(by_product)`,
    clusters a set of identity-hashed objects enumerated as `o` (the pre-sort is the repair of
